@@ -33,11 +33,12 @@ func (f flowFunc) key() string { return f.pkg + "." + f.name }
 
 type flowTr struct {
 	tm     *t.Map
-	vars   map[t.ID]int    // status-typed locals
-	reader t.ID            // the io_reader argument
-	lits   map[string]int  // per class prefix+text -> id
-	nlit   map[byte]int    // next id per class
-	loops  []a.Loop        // enclosing loops, innermost last
+	vars   map[t.ID]int   // status-typed locals
+	reader t.ID           // the io_reader argument
+	lits   map[string]int // per class prefix+text -> id
+	nlit   map[byte]int   // next id per class
+	loops  []a.Loop       // enclosing loops, innermost last
+	shadow int            // > 0 inside io_bind / io_limit blocks on the reader
 	failed string
 }
 
@@ -232,7 +233,7 @@ func (tr *flowTr) cond(e *a.Expr) *fcond {
 			}
 			return &fcond{kind: "unknown"}
 		}
-		if meth == t.IDIsClosed && tr.reader != 0 && recv.IsArgsDotFoo() == tr.reader {
+		if meth == t.IDIsClosed && tr.reader != 0 && recv.IsArgsDotFoo() == tr.reader && tr.shadow == 0 {
 			return &fcond{kind: "closed"}
 		}
 	}
@@ -334,7 +335,17 @@ func (tr *flowTr) stmt(n *a.Node) []*fnode {
 		if hasCoroCall(m.IO().AsNode()) || hasCoroCall(m.Arg1().AsNode()) {
 			out = append(out, &fnode{op: "Q"})
 		}
-		return append(out, tr.block(m.Body()))
+		// inside io_bind / io_limit on the reader, args.src.is_closed() looks at another buffer / a narrowed
+		// window (`closed && (wi <= limit)`), not at the caller's flag: every such test becomes `unknown`
+		shadows := tr.reader != 0 && m.IO().IsArgsDotFoo() == tr.reader
+		if shadows {
+			tr.shadow++
+		}
+		body := tr.block(m.Body())
+		if shadows {
+			tr.shadow--
+		}
+		return append(out, body)
 	case a.KJump:
 		j := n.AsJump()
 		d := -1
